@@ -873,6 +873,10 @@ def check(ctx):
     check_pair(ctx)
     from ..load_model import check_merge_memo
     check_merge_memo(ctx, 'C10.DEFAULTS(MEMO)')
+    # no state that gates a store-writing step is switched off by a load
+    from . import c20 as _c20
+    ctx.borrow('C10.REAPPLY', _c20.check_gates, ctx.prog, ctx.prog.func(
+        ENF + '.load_rules'), only=['C20.FLAGS'])
     # C10.FIND: a policy file created after start-up is found (= C09.FIND)
     from . import c09
     nf, no = len(ctx.findings), len(ctx.obligations)
